@@ -3,7 +3,7 @@ From Coq Require Import ZArith List.
 Import ListNotations.
 From V Require Import Valid.Hier Valid.FlatRegion Valid.Cons Valid.Run.
 From Coq Require Import Lia.
-From V Require Import Model.Pipe Model.PipeBounded Model.PipeBounded4 Model.Graph Model.Edits Model.Edits2 Model.JoinPath Model.LoopEdit Model.LoopSpec Model.Extract Model.ExtractPath Model.Conserve.
+From V Require Import Model.Pipe Model.PipeBounded Model.PipeBounded4 Model.Graph Model.Edits Model.Edits2 Model.JoinPath Model.LoopEdit Model.LoopSpec Model.Extract Model.ExtractPath Model.Conserve Model.CbHier Model.CbHierPath.
 
 Theorem C05_checker_sound : forall g h, cons_check g h = true -> Conserved g h.
 Proof. exact cons_check_sound. Qed.
@@ -98,3 +98,28 @@ Theorem C05_region_extraction_conserves :
       forall k t t', nth_error (n_jt n) k = Some t -> nth_error (n_jt n') k = Some t' -> t' = t \/ (t = hd /\ t' = rname).
 Proof. exact extract_conserves. Qed.
 Print Assumptions C05_region_extraction_conserves.
+
+(* header unification at ANY level of a hierarchy, with ANY kind of predecessor, for ALL hierarchies:
+   an original block keeps its payload and its arity; each successor stays, or - when it is one of the
+   unified headers - becomes an assignment block of the level that sets the control variable and goes to
+   the new head *)
+Theorem C05_header_unification_any_level_conserves :
+  forall h lvl new var preds Ss names h',
+    insert_cb_h h lvl new var preds Ss names = XOk h' ->
+    (exists rank : name -> nat, forall x n, find h x = Some n -> (rank (n_parent n) < rank x)%nat) ->
+    (exists nl0, find h lvl = Some nl0 /\ is_region nl0 = true) ->
+    (forall p, In p preds -> p <> lvl /\ exists n0, find h p = Some n0 /\ n_parent n0 = lvl) ->
+    (NoDup names /\ forall a, In a names -> find h a = None /\ ~ In a Ss /\ a <> new) ->
+    find h new = None ->
+    (forall x n, find h x = Some n -> is_region n = false ->
+       NoDup (n_jt n) /\ (forall a, In a names -> ~ In a (n_jt n)) /\
+       (forall c v tbl, n_kind n = KBranch c v tbl -> NoDup (map fst tbl) /\ v <> var) /\
+       (forall a, n_kind n = KAssign a -> forall p, In p a -> fst p <> var)) ->
+    forall x n p, find h x = Some n -> n_kind n = KOrig p ->
+      exists n', find h' x = Some n' /\ n_kind n' = KOrig p /\ length (n_jt n') = length (n_jt n) /\
+        forall k t t', nth_error (n_jt n) k = Some t -> nth_error (n_jt n') k = Some t' ->
+          t' = t \/ (In t Ss /\ exists i, find h' t' = Some (mkNode t' lvl [new] [] (KAssign [(var, i)]))).
+Proof.
+  intros h lvl new var preds Ss names h'. exact (insert_cb_h_conserves h lvl new var preds Ss names h').
+Qed.
+Print Assumptions C05_header_unification_any_level_conserves.
